@@ -332,7 +332,7 @@ func checkC14(tier string) int {
 func checkC15(tier string) int {
 	rep := vx.NewReport("C15", tier, "exploration")
 	rep.Assumptions = []string{"one hostile connection at a time next to one well-behaved registered producer (the per-connection protocol state is not shared between connections)", "default schedule; in-memory connections with exact byte delivery (TCP segmentation is enumerated as chunk boundaries)"}
-	rep.Rule = "E5: magic = all strings of length 4 over {space,V,1,2,NUL}; first input = all strings of length <= 3 over {space,LF,A,0,NUL,0xFF}; every command x 0-3 parameters from {valid, invalid, 65 chars, empty}; IDENTIFY length prefix in {-2^31,-1,0,1,len-1,len,len+1,2^20+1,2^31-1} x body in {valid, each required field missing / zero / wrong type, null, [], {}, truncated at every byte}; commands before IDENTIFY, IDENTIFY twice; REGISTER/UNREGISTER (once, twice, registered then undone) of every key the bystander holds, durable and ephemeral; every HTTP route x method x argument class. Each against a fresh real nsqlookupd with a bystander producer whose three registrations must stay intact and which must keep being answered. distinct = distinct (input class, answers) outcomes"
+	rep.Rule = "E5: magic = all strings of length 4 over {space,V,1,2,NUL}; first input = all strings of length <= 3 over {space,LF,A,0,NUL,0xFF}; every command x 0-3 parameters from {valid, invalid, 65 chars, empty, 55 chars + #ephemeral (65 in all)} - no name that breaks the naming rules may end up registered; IDENTIFY length prefix in {-2^31,-1,0,1,len-1,len,len+1,2^20+1,2^31-1} x body in {valid, each required field missing / zero / wrong type, null, [], {}, truncated at every byte}; commands before IDENTIFY, IDENTIFY twice; REGISTER/UNREGISTER (once, twice, registered then undone) of every key the bystander holds, durable and ephemeral; every HTTP route x method x argument class. Each against a fresh real nsqlookupd with a bystander producer whose three registrations must stay intact and which must keep being answered. distinct = distinct (input class, answers) outcomes"
 	var specs []nsqlookupd.RobustSpec
 	tcp := func(desc string, data []byte) {
 		specs = append(specs, nsqlookupd.RobustSpec{Kind: "tcp", Data: data, Desc: desc})
@@ -359,7 +359,7 @@ func checkC15(tier string) int {
 	})
 	valid := `{"broadcast_address":"x","hostname":"x","tcp_port":1,"http_port":2,"version":"1"}`
 	ident := string(nsqlookupd.LkIdentify(int32(len(valid)), []byte(valid)))[4:]
-	params := []string{"t", "t$", strings.Repeat("a", 65), ""}
+	params := []string{"t", "t$", strings.Repeat("a", 65), "", strings.Repeat("e", 55) + "#ephemeral"}
 	for _, cmd := range []string{"PING", "IDENTIFY", "REGISTER", "UNREGISTER", "XYZ", "register"} {
 		var tuples [][]string
 		tuples = append(tuples, nil)
